@@ -363,6 +363,13 @@ func (v *PacketDslVisitorImpl) VisitLengthFieldDeclaration(ctx *gen.LengthFieldD
 	if v.BinModel.MetaDataMap[name] != (model.MetaData{}) {
 		// If metadata exists, use its basic type
 		typ = v.BinModel.MetaDataMap[name].Attr.GetType()
+	} else if ctx.Type_() == nil {
+		// no type written and no MetaData entry to take it from
+		v.BinModel.AddSyntaxError(&model.SyntaxError{
+			Line:   ctx.GetStart().GetLine(),
+			Column: ctx.GetStart().GetColumn(),
+			Msg:    "Unknown MetaData type " + name + " for field " + name + " declared without a type",
+		})
 	}
 	return &model.Field{
 		Name:     name,
@@ -391,6 +398,13 @@ func (v *PacketDslVisitorImpl) VisitCheckSumFieldDeclaration(ctx *gen.CheckSumFi
 	if v.BinModel.MetaDataMap[name] != (model.MetaData{}) {
 		// If metadata exists, use its basic type
 		typ = v.BinModel.MetaDataMap[name].Attr.GetType()
+	} else if ctx.Type_() == nil {
+		// no type written and no MetaData entry to take it from
+		v.BinModel.AddSyntaxError(&model.SyntaxError{
+			Line:   ctx.GetStart().GetLine(),
+			Column: ctx.GetStart().GetColumn(),
+			Msg:    "Unknown MetaData type " + name + " for field " + name + " declared without a type",
+		})
 	}
 	return &model.Field{
 		Name:     ctx.GetName().GetText(),
